@@ -21,10 +21,11 @@ from ..core import ROOT, Check, Driver, HarnessError, ddmin, proof_stage
 
 PROP = "C12"
 DRIVER = Driver("driver_c12", "Drivers/C12.lean")
-CFGS = ["shared", "separate", "shared_secret", "shared_purge", "separate_purge"]
+CFGS = ["shared", "separate", "shared_secret", "shared_purge", "separate_purge", "split", "split_tags"]
+EXH_CFGS = ["separate", "shared", "split_tags", "split"]
 # the layout strat stores [datetime, result] (early / soft): not with the pickling serializer of shared_secret (the virtual
 # clock replaces datetime.datetime, which pickle cannot look up)
-STRAT_CFGS = ["shared", "separate", "shared_purge", "separate_purge"]
+STRAT_CFGS = ["shared", "separate", "split", "split_tags", "shared_purge", "separate_purge"]
 OPT_LAYOUTS = ["strat+upper", "strat+lock", "strat+unprot", "strat+tc", "strat+upper+tc", "strat+upper+lock", "strat+upper+unprot+tc"]
 LAYOUTS = ["plain", "templ", "decor", "mut"]
 BIGS = [100, 101, 150, 200, 201, 230]
@@ -312,7 +313,7 @@ def run(chk: Check) -> int:
         cases.append((f"gen:{i}", cfg, lay, taghist.gen_history(rng, layout(lay), maxlen)))
     for i in range(nbig):
         lay = f"big:{BIGS[i % len(BIGS)]}"
-        cases.append((f"big:{i}", CFGS[i % 2], lay, taghist.gen_big(rng, layout(lay))))
+        cases.append((f"big:{i}", ["shared", "separate", "split"][i % 3], lay, taghist.gen_big(rng, layout(lay))))
     for i in range(nunreg):
         cases.append((f"unreg:{i}", CFGS[i % 2], "unreg", taghist.gen_history(rng, layout("unreg"), 16, registered_only=False)))
 
@@ -334,14 +335,14 @@ def run(chk: Check) -> int:
     nopts = chk.budget(420, 4000)
     for i in range(nopts):
         lay = OPT_LAYOUTS[i % len(OPT_LAYOUTS)]
-        cfgs = STRAT_CFGS[:2] if "tc" in lay else STRAT_CFGS      # bodies that take time: purge task off
+        cfgs = STRAT_CFGS[:4] if "tc" in lay else STRAT_CFGS      # bodies that take time: purge task off
         cfg = cfgs[(i // len(OPT_LAYOUTS)) % len(cfgs)]
         gen = taghist.gen_refresh if i % 3 else (lambda rng, l: taghist.gen_strat_history(rng, l, 24))
         cases.append((f"opts:{i}", cfg, lay, gen(rng, layout(lay))))
     exh3_len = chk.budget(4, 5)
     exh3, nalpha3 = taghist.exhaustive_refresh_cases(layout("strat"), exh3_len)
     for i, ops in enumerate(exh3):
-        cases.append((f"exh3:{i}", "shared" if i % 2 else "separate", "strat", ops))
+        cases.append((f"exh3:{i}", EXH_CFGS[i % 4], "strat", ops))
 
     nnl = chk.budget(150, 2000)
     for i in range(nnl):
@@ -351,11 +352,11 @@ def run(chk: Check) -> int:
     exh_len = chk.budget(3, 4)
     exh, nalpha = exhaustive_cases(exh_len)
     for i, ops in enumerate(exh):
-        cases.append((f"exh:{i}", "shared" if i % 2 else "separate", "plain", ops))
+        cases.append((f"exh:{i}", EXH_CFGS[i % 4], "plain", ops))
     exh2_len = chk.budget(3, 4)
     exh2, nalpha2 = exhaustive_removal_cases(exh2_len)
     for i, ops in enumerate(exh2):
-        cases.append((f"exh2:{i}", "shared" if i % 2 else "separate", "plain", ops))
+        cases.append((f"exh2:{i}", EXH_CFGS[i % 4], "plain", ops))
 
     found = 0
     evaluations = 0
